@@ -258,6 +258,13 @@ Definition h7_inv_goroutines (fs : list gfunc) : bool :=
       let bodies := go_bodies f in
       negb (match bodies with [] => true | _ => false end)
       && forallb (fun b => forallb h7_op b) bodies
+      (* what those goroutines call (cleanupInvHandlersQueue ...) must not block *)
+      && forallb (fun b => forallb (fun o =>
+            match o with
+            | GCall g _ _ => match find_func fs g with
+                             | Some gf => forallb blocking_free (all_ops false gf)
+                             | None => true end
+            | _ => true end) b) bodies
       && existsb (fun b => existsb (fun o => match o with GWgDone true _ => true | _ => false end) b) bodies
       && existsb (fun b => existsb (fun o => match o with GCancel false true _ => true | _ => false end) b) bodies
       && existsb (fun o => match o with GWgAdd _ => true | _ => false end) (all_ops false f)
